@@ -43,6 +43,8 @@ func reservePort() (int, *net.TCPListener, *net.UDPConn) {
 	panic("no free port")
 }
 
+var c12CloseShape int64
+
 type scriptedKDC struct {
 	idx      int
 	port     int
@@ -120,6 +122,19 @@ func (k *scriptedKDC) serve(realm string) {
 					io.ReadFull(c, req)
 					switch k.tcpBeh {
 					case "c":
+						// closing early comes in several shapes: before anything, inside the length prefix,
+						// after announcing an empty reply, inside the announced body
+						rb := fakeReply("a", k.idx, true, realm)
+						switch atomic.AddInt64(&c12CloseShape, 1) % 4 {
+						case 1:
+							c.Write([]byte{0, 0})
+						case 2:
+							c.Write([]byte{0, 0, 0, 0})
+						case 3:
+							out := make([]byte, 4, 4+len(rb))
+							binary.BigEndian.PutUint32(out, uint32(len(rb)))
+							c.Write(append(out, rb[:len(rb)/2]...))
+						}
 						return
 					case "s":
 						select {
